@@ -312,6 +312,32 @@ def composite(vk, cfg):
     P2 = umat2.gradient([F, None])[0]
     A2 = umat2.hessian([F, None])[0]
     vk.ensures_eq("&/hessian==D(gradient)", A2, dF(vk, P2, F))
+    # a history-dependent first part (the documented case: "state variables are only considered for the first
+    # material"): the composite's new state is the FIRST part's new state, its tangent is taken at fixed stored state
+    from vk.stubs import StubStateMaterial
+
+    z = vk.reals("z", (2, 2, 1), near=0.2, spread=0.1)
+    sm = StubStateMaterial(vk, dim=3, nstate=2)
+    cs = fem.constitution.CompositeMaterial(sm, b)
+    z0 = vk.snapshot(z)
+    Ps, zs = cs.gradient([F, z])
+    As = cs.hessian([F, z])[0]
+    Pa, za = sm.gradient([F, z])
+    vk.ensures_eq("state/gradient==sum of the parts at the stored state", Ps, Pa + b.gradient([F, z])[0])
+    vk.ensures_eq("state/statevars_new==new state of the first part", zs, za)
+    vk.ensures_eq("state/hessian==D(gradient)|z", As, dF(vk, Ps, F))
+    vk.frame_unchanged("state/stored state", z, z0)
+    if vk.sym:
+        vk.canary("state/statevars_new==stored state", zs, z)
+    # keyword arguments are handed on to the parts: an out= work buffer must still give the composite's stress /
+    # elasticity (the parts must not overwrite each other in one shared buffer), fresh and reused
+    for what, fn, spec in (("gradient", umat2.gradient, P2), ("hessian", umat2.hessian, A2)):
+        buf = np.zeros(np.asarray(spec).shape, dtype=object if vk.sym else float)
+        buf[...] = LP.const(7) if vk.sym else 7.0
+        r = fn([F, None], out=buf)[0]
+        vk.ensures_eq(f"&/{what}/out=fresh", r, spec)
+        r = fn([F, None], out=buf)[0]
+        vk.ensures_eq(f"&/{what}/out=reused", r, spec)
 
 
 @contract("C03", "ogden_roxburgh", configs=[dict(path="loading"), dict(path="unloading")])
